@@ -19,10 +19,11 @@ VARIABLES kind, N, lens, closable, wcloser, bs, path,   \* configuration (consta
           rem, lclosed,                                 \* limitReadCloser.N / .closed
           cur, dropped, wn,                             \* MultiReaderCloser.readers = sources cur..m (dropped: set to nil); WriteTo progress
           teof, tnil, tstop,                            \* TeeReadCloser.eof / r,w == nil / w == nil after Stop()
+          gave,                                         \* the consumer stopped reading before the terminal result (early Close)
           phase,                                        \* consumer: "consume" | "close" | "end" | "done"
           c                                             \* contract monitor
 vars == <<kind, N, lens, closable, wcloser, bs, path, spos, seof, sfail, zeroLeft, failOK,
-          rem, lclosed, cur, dropped, wn, teof, tnil, tstop, phase, c>>
+          rem, lclosed, cur, dropped, wn, teof, tnil, tstop, gave, phase, c>>
 
 M == Len(lens)
 Min(a, b) == IF a < b THEN a ELSE b
@@ -49,7 +50,7 @@ Init ==
   /\ failOK \in [1..Len(lens) -> BOOLEAN]
   /\ rem = N /\ lclosed = FALSE
   /\ cur = 1 /\ dropped = FALSE /\ wn = 0
-  /\ teof = FALSE /\ tnil = FALSE /\ tstop = FALSE
+  /\ teof = FALSE /\ tnil = FALSE /\ tstop = FALSE /\ gave = FALSE
   /\ phase = "consume"
   /\ c = CReset([kind |-> kind, N |-> N, lens |-> lens, closable |-> closable, wcloser |-> wcloser])
 
@@ -82,13 +83,13 @@ Term(err) == IF err = "nil" THEN "consume" ELSE "close"
 (* limitReadCloser.Read — limitreadcloser.go:44-73 *)
 LimitRead ==
   /\ kind = "limit" /\ phase = "consume"
-  /\ UNCHANGED <<cur, dropped, wn, teof, tnil, tstop>>
+  /\ UNCHANGED <<cur, dropped, wn, teof, tnil, tstop, gave>>
   /\ IF rem < 0 THEN                                    \* line 45
        /\ c' = Feed(c, <<ReadEv(bs, 0, "toolarge")>>) /\ phase' = "close"
-       /\ UNCHANGED <<spos, seof, sfail, zeroLeft, rem, lclosed, tstop>>
+       /\ UNCHANGED <<spos, seof, sfail, zeroLeft, rem, lclosed, tstop, gave>>
      ELSE IF lclosed THEN                               \* line 51
        /\ c' = Feed(c, <<ReadEv(bs, 0, "eof")>>) /\ phase' = "close"
-       /\ UNCHANGED <<spos, seof, sfail, zeroLeft, rem, lclosed, tstop>>
+       /\ UNCHANGED <<spos, seof, sfail, zeroLeft, rem, lclosed, tstop, gave>>
      ELSE LET k == Min(bs, rem + 1) IN                  \* line 54
        \E o \in SrcOutcomes(1, k) :
          LET r2 == rem - o[1]
@@ -108,16 +109,16 @@ LimitClose ==
   /\ lclosed' = TRUE
   /\ c' = Feed(c, (IF lclosed THEN <<>> ELSE <<SrcCloseEv(1)>>) \o <<[ev |-> "close"]>>)
   /\ phase' = "end"
-  /\ UNCHANGED <<spos, seof, sfail, zeroLeft, rem, cur, dropped, wn, teof, tnil, tstop>>
+  /\ UNCHANGED <<spos, seof, sfail, zeroLeft, rem, cur, dropped, wn, teof, tnil, tstop, gave>>
 
 ----------------------------------------------------------------------------
 (* one iteration of the loop in MultiReaderCloser.Read — multireadercloser.go:47-75 *)
 MultiReadIter ==
   /\ kind = "multi" /\ path = "read" /\ phase = "consume"
-  /\ UNCHANGED <<rem, lclosed, dropped, wn, teof, tnil, tstop>>
+  /\ UNCHANGED <<rem, lclosed, dropped, wn, teof, tnil, tstop, gave>>
   /\ IF cur > M THEN
        /\ c' = Feed(c, <<ReadEv(bs, 0, "eof")>>) /\ phase' = "close"
-       /\ UNCHANGED <<spos, seof, sfail, zeroLeft, cur, tstop>>
+       /\ UNCHANGED <<spos, seof, sfail, zeroLeft, cur, tstop, gave>>
      ELSE \E o \in SrcOutcomes(cur, bs) :
        LET isEOF == o[2] = "eof"
            cur2 == IF isEOF THEN cur + 1 ELSE cur
@@ -133,12 +134,12 @@ MultiReadIter ==
 Big == 64
 MultiWriteToIter ==
   /\ kind = "multi" /\ path = "copy" /\ phase = "consume"
-  /\ UNCHANGED <<rem, lclosed, teof, tnil, tstop>>
+  /\ UNCHANGED <<rem, lclosed, teof, tnil, tstop, gave>>
   /\ IF cur > M THEN
        /\ dropped' = TRUE                                \* mr.readers = nil
        /\ c' = Feed(c, <<[ev |-> "writeto", n |-> wn, err |-> "nil", ok |-> TRUE]>>)
        /\ phase' = "close"
-       /\ UNCHANGED <<spos, seof, sfail, zeroLeft, cur, wn, tstop>>
+       /\ UNCHANGED <<spos, seof, sfail, zeroLeft, cur, wn, tstop, gave>>
      ELSE \E o \in SrcOutcomes(cur, Big) :
        /\ SrcApply(cur, o)
        /\ wn' = wn + o[1]
@@ -161,16 +162,16 @@ MultiClose ==
   /\ c' = Feed(c, (IF dropped THEN <<>> ELSE CloseRest(cur)) \o <<[ev |-> "close"]>>)
   /\ cur' = M + 1
   /\ phase' = "end"
-  /\ UNCHANGED <<spos, seof, sfail, zeroLeft, rem, lclosed, dropped, wn, teof, tnil, tstop>>
+  /\ UNCHANGED <<spos, seof, sfail, zeroLeft, rem, lclosed, dropped, wn, teof, tnil, tstop, gave>>
 
 ----------------------------------------------------------------------------
 (* TeeReadCloser.Read — teereadcloser.go:88-110 *)
 TeeRead ==
   /\ kind = "tee" /\ phase = "consume"
-  /\ UNCHANGED <<rem, lclosed, cur, dropped, wn, tnil, tstop>>
+  /\ UNCHANGED <<rem, lclosed, cur, dropped, wn, tnil, tstop, gave>>
   /\ IF teof THEN
        /\ c' = Feed(c, <<ReadEv(bs, 0, "eof")>>) /\ phase' = "close"
-       /\ UNCHANGED <<spos, seof, sfail, zeroLeft, teof, tstop>>
+       /\ UNCHANGED <<spos, seof, sfail, zeroLeft, teof, tstop, gave>>
      ELSE \E o \in SrcOutcomes(1, bs) :
        /\ SrcApply(1, o)
        /\ teof' = (o[2] = "eof")
@@ -185,23 +186,28 @@ TeeClose ==
   /\ tnil' = TRUE
   /\ c' = Feed(c, (IF closable[1] THEN <<SrcCloseEv(1)>> ELSE <<>>) \o (IF wcloser /\ ~tstop THEN <<[ev |-> "wclose"]>> ELSE <<>>) \o <<[ev |-> "close"]>>)
   /\ phase' = "end"
-  /\ UNCHANGED <<spos, seof, sfail, zeroLeft, rem, lclosed, cur, dropped, wn, teof, tstop>>
+  /\ UNCHANGED <<spos, seof, sfail, zeroLeft, rem, lclosed, cur, dropped, wn, teof, tstop, gave>>
 
 (* TeeReadCloser.Stop — teereadcloser.go:74-86: closes the writer only; the consumer may call it before Close *)
 TeeStop ==
   /\ kind = "tee" /\ phase = "close" /\ ~tstop
   /\ tstop' = TRUE
   /\ c' = Feed(c, (IF wcloser THEN <<[ev |-> "wclose"]>> ELSE <<>>) \o <<[ev |-> "stop"]>>)
-  /\ UNCHANGED <<spos, seof, sfail, zeroLeft, rem, lclosed, cur, dropped, wn, teof, tnil, phase>>
+  /\ UNCHANGED <<spos, seof, sfail, zeroLeft, rem, lclosed, cur, dropped, wn, teof, tnil, phase, gave>>
+
+(* the consumer may stop reading at any point and go straight to Close *)
+GiveUp ==
+  /\ phase = "consume" /\ phase' = "close" /\ gave' = TRUE
+  /\ UNCHANGED <<spos, seof, sfail, zeroLeft, rem, lclosed, cur, dropped, wn, teof, tnil, tstop, c>>
 
 ----------------------------------------------------------------------------
 End ==
   /\ phase = "end"
-  /\ c' = Feed(c, <<[ev |-> "end"]>>)
+  /\ c' = Feed(c, <<[ev |-> IF gave THEN "end_partial" ELSE "end"]>>)
   /\ phase' = "done"
-  /\ UNCHANGED <<spos, seof, sfail, zeroLeft, rem, lclosed, cur, dropped, wn, teof, tnil, tstop>>
+  /\ UNCHANGED <<spos, seof, sfail, zeroLeft, rem, lclosed, cur, dropped, wn, teof, tnil, tstop, gave>>
 
-Next == /\ (LimitRead \/ LimitClose \/ MultiReadIter \/ MultiWriteToIter \/ MultiClose \/ TeeRead \/ TeeStop \/ TeeClose \/ End)
+Next == /\ (LimitRead \/ LimitClose \/ MultiReadIter \/ MultiWriteToIter \/ MultiClose \/ TeeRead \/ TeeStop \/ TeeClose \/ GiveUp \/ End)
         /\ UNCHANGED <<kind, N, lens, closable, wcloser, bs, path, failOK>>
 Spec == Init /\ [][Next]_vars /\ WF_vars(Next)
 
